@@ -69,8 +69,8 @@ def consumptions(fn: ast.AST, name: str, local: bool = False) -> list[ast.AST]:
             out.append(n)
         elif local and isinstance(p, ast.keyword):
             out.append(n)
-        elif isinstance(p, ast.Compare) and n in p.comparators and isinstance(p.ops[0], (ast.In, ast.NotIn)):
-            out.append(n)
+        elif local and isinstance(p, ast.Compare) and n in p.comparators and isinstance(p.ops[0], (ast.In, ast.NotIn)):
+            out.append(n)  # a membership test steps through a one-shot iterator; on an `Iterable` parameter it is the usual way to ask a set / tuple
     return out
 
 
